@@ -43,9 +43,10 @@ namespace RNum
 variable {ρ : Type} [RNum ρ]
 @[inline] def ofNat (n : Nat) : ρ := ofInt (Int.ofNat n)
 @[inline] def zero : ρ := ofInt 0
-@[inline] def one : ρ := ofInt 1
-@[inline] def two : ρ := ofInt 2
-@[inline] def ten : ρ := ofInt 10
+/-- the literals `1.0`, `2.0`, `10.0` of the Rust source (same form as the translator emits) -/
+@[inline] def one : ρ := lit 0x3FF0000000000000 1 1
+@[inline] def two : ρ := lit 0x4000000000000000 2 1
+@[inline] def ten : ρ := lit 0x4024000000000000 10 1
 /-- the literal `0.5` -/
 @[inline] def half : ρ := lit 0x3FE0000000000000 1 2
 end RNum
